@@ -11,9 +11,10 @@ Proved here on the structural layer (`Model/SparseTree.lean`: the compact tree w
 by descent on the key bits), for every key width `n`, every key type whose keys are determined by
 their `n` bits, every hash function and every history. The storage-level transcription of the Rust code
 (`Model/SparseStore.lean`: `path_set`, `update_with_path_set`, `delete_with_path_set`, `from_set`,
-`merge_branches` over a node store) is tied to the Rust code AND to this layer by the correspondence
-stream `c12` (root after every operation, node store digest, `specRoot` of the final map, from_set /
-root_from_set / nodes_from_set); see the end of this file for what is proved about that layer.
+`merge_branches` over a node store) is PROVED to refine this layer for every history
+(`Props/C12Store.lean`: `store_history_rep`, `store_root_history`; the from_set clause in
+`Props/C12FromSet.lean`), and is tied to the Rust code by the correspondence stream `c12` (root after every
+operation, node store digest, `specRoot` of the final map, from_set / root_from_set / nodes_from_set).
 -/
 import FuelVerif.Lemmas.SparseTree
 import FuelVerif.Lemmas.SparseBytes
@@ -156,9 +157,9 @@ theorem root_history_bytes (H : Bytes → Bytes) (hl : ∀ x, (H x).length = key
   exact this
 
 /-- FULL STATEMENT of the from_set clause, on the storage-level transcription (`SmtStore.fromSet`,
-`rootFromSet`, `nodesFromSet`): NOT proved — the three-node-window merge of `from_set` is compared with
-the real code, the reference root and `specRoot` by stream `c12` (`fromset` lines) on clustered sets,
-shuffled and with duplicate keys. -/
+`rootFromSet`, `nodesFromSet`); proved as `fromSetStatement_holds` in `Props/C12FromSet.lean` (and compared with
+the real code, the reference root and `specRoot` by stream `c12`, `fromset` lines, on clustered sets, shuffled
+and with duplicate keys). -/
 def FromSetStatement (H : Bytes → Bytes) : Prop :=
   ∀ (set : List (Bytes × Bytes)), (∀ kv ∈ set, kv.1.length = FuelVerif.Gen.Sparse.keyBytes) →
     let m := set.foldl (fun m kv => alInsert kv.1 (H kv.2) m) []
